@@ -8,6 +8,9 @@ from ..mon.client import call
 
 ID = "C19"
 MUTABLE = (list, dict, gfapy.OrientedLine, gfapy.FieldArray, gfapy.SegmentEnd)
+# everything else which is not one of these counts as mutable too (an object with attributes,
+# e.g. gfapy.LastPos with its writable 'value')
+IMMUTABLE = (int, float, str, bytes, bool, type(None), gfapy.Placeholder, gfapy.Line)
 
 
 def setup(ctx):
@@ -34,7 +37,7 @@ def mutable_parts(v, path="", depth=0):
     if isinstance(v, gfapy.CIGAR.Operation):
         out.append((path + "/op", v))
         return out
-    if isinstance(v, MUTABLE):
+    if isinstance(v, MUTABLE) or not isinstance(v, IMMUTABLE):
         out.append((path, v))
     if isinstance(v, (list, tuple)) and not isinstance(v, (str, bytes)):
         for i, e in enumerate(v):
@@ -60,6 +63,9 @@ def edit_in_place(rng, line, fname):
     if isinstance(v, gfapy.OrientedLine):
         v.orient = "-" if v.orient == "+" else "+"
         return "orientedline-orient"
+    if isinstance(v, gfapy.LastPos):
+        v.value = v.value + 3
+        return "lastpos-value"
     if isinstance(v, dict):
         v["verif"] = [1]
         return "json-dict-insert"
